@@ -409,6 +409,27 @@ def make_for_rule(name, matcher):
     return rule
 
 
+def rule_mut_self(toks, lo, hi, edits, log, it=None):
+    """R-mut-self: `fn f(mut self, ..) { BODY }` -> `fn f(self, ..) { let mut verif_self = self; BODY[self := verif_self] }`
+    (Verus rejects `mut self`; a by-value `mut` binding is exactly a local initialised from the parameter)."""
+    if it is None or it.kind != "fn" or it.open is None:
+        return
+    s = sig_idx(toks, it.kw, it.open)
+    hit = None
+    for n in range(len(s) - 1):
+        if toks[s[n]].text == "mut" and toks[s[n + 1]].text == "self" and toks[s[n - 1]].text in ("(", ","):
+            hit = s[n]
+            break
+    if hit is None:
+        return
+    edits.replace[hit] = ""
+    edits.ins_after(it.open, " let mut verif_self = self; ", None)
+    for i in sig_idx(toks, it.open + 1, hi):
+        if toks[i].kind == "id" and toks[i].text == "self":
+            edits.replace[i] = "verif_self"
+    log("R-mut-self: `mut self` -> local `verif_self`")
+
+
 def make_break_value_rule(fn_names):
     """R-break-value: in the listed functions (whose loop is the function's tail expression) a value-carrying
     `break EXPR;` becomes `return EXPR;` (Verus rejects value-carrying breaks)."""
@@ -644,11 +665,14 @@ class Generator:
                 self.out.add(line if line.endswith("\n") else line + "\n", o)
 
     # -- repo files ---------------------------------------------------------------------------
-    def emit_repo(self, relfile, mode="all", only=None, canary=True, extra_rules=(), outline_ret=None, header_rules=()):
+    def emit_repo(self, relfile, mode="all", only=None, canary=True, extra_rules=(), outline_ret=None, header_rules=(), select=False):
         self._header_rules = header_rules
         path = os.path.join(REPO, relfile)
         src = open(path).read()
         self._premap = None
+        if select:
+            import outline
+            src = outline.select_rewrite(src, self.log(relfile, None))
         if outline_ret:
             import outline
             src, self._premap = outline.outline(src, outline_ret, self.log(relfile, None))
@@ -1098,7 +1122,7 @@ def generate(unit, outdir):
         elif part[0] == "repo":
             g.stub_all = bool(opts.get("stub_all"))
             g.emit_repo(part[1], only=opts.get("only"), canary=opts.get("canary", True) and not g.stub_all,
-                        extra_rules=opts.get("rules", ()), outline_ret=opts.get("outline"), header_rules=opts.get("header_rules", ()))
+                        extra_rules=opts.get("rules", ()), outline_ret=opts.get("outline"), header_rules=opts.get("header_rules", ()), select=opts.get("select", False))
             g.stub_all = False
     if cur_mod is not None:
         g.out.add("\n} // mod %s\n" % cur_mod, None)
